@@ -1393,7 +1393,9 @@ func main() {
 			"5 topics with two hot ones), 1..4 stages per case (extend, reorg replacing up to 8 blocks by a longer fork, indexer restart with another history limit, " +
 			"history cutoff, queries racing the indexer), 5..12 queries per stage: address sets (incl. empty, non-emitting), 0..4 topic positions with wild cards and 2..3 alternatives, " +
 			"block ranges inside / outside / straddling the indexed range, latest/earliest, block-hash filters on canonical, unknown and reorged-out blocks; " +
-			"an adversarial stream uses pending/finalized/safe/negative/future block numbers. Non-trivial = at least two maps indexed and some query returned logs.",
+			"an adversarial stream uses pending/finalized/safe/negative/future block numbers; every third case has, per stage transition, a query that is RUNNING while the chain moves " +
+			"(MatcherBackend.SyncLogIndex and Backend.CurrentView are hooked: right before the chosen call the chain is extended / reorged and the indexer catches up, tail unindexing included; " +
+			"filters matching many logs so the blocks at the old head / fork point matter; the ValidBlocks trace is recorded from the implementation in a second generator pass). Non-trivial = at least two maps indexed and some query returned logs.",
 		Gen:         gen,
 		Run:         run,
 		CaseTimeout: 120 * time.Second,
